@@ -149,7 +149,7 @@ class CustomGateDef:
         """Return a new tree with parameter indices replaced with values."""
         if isinstance(exp, lark.Token):
             if exp.type == 'PARAM_IDX':
-                return lark.Token('REAL', params[int(exp)])
+                return lark.Token('REAL', f'({params[int(exp)]!r})')
             else:
                 return exp
         children = [self.replace_param_indices(c, params) for c in exp.children]
